@@ -14,6 +14,9 @@ mod checks;
 mod core;
 mod engine_a;
 mod engine_b;
+mod engine_c;
+mod engine_d;
+mod sched;
 mod inflate;
 mod mpart;
 mod simdata;
@@ -48,6 +51,7 @@ fn main() {
             2
         }
     };
+    engine_d::cleanup_scratch();
     std::process::exit(code);
 }
 
